@@ -348,6 +348,16 @@ class C05Base:
     def run(self, task):
         if task.get('mode') == 'replay':
             v, sim = run_history(task['config'], task['ops'])
+            es = task.get('engine_state') or {}
+            if v is None and es.get('batch_seed') is not None:
+                # needs what earlier histories of the same process left
+                # behind (one server process evaluates many queues)
+                rng0 = random.Random(es['batch_seed'])
+                for i in range(es['index']):
+                    cfg_i, ops_i = gen(random.Random(
+                        rng0.randrange(2 ** 48)))
+                    run_history(cfg_i, ops_i)
+                v, sim = run_history(task['config'], task['ops'])
             return {'property': 'C05', 'seed': task['seed'],
                     'config': task['config'], 'ops': task['ops'], 'runs': 1,
                     'violations': [v.as_dict()] if v else [],
@@ -375,6 +385,7 @@ class C05Base:
             if v is not None:
                 viol.append(v.as_dict())
                 out = (cfg, ops, seed)
+                engine_state = {'batch_seed': task['seed'], 'index': i}
                 break
         res = {'property': 'C05', 'seed': out[2], 'config': out[0],
                'ops': out[1], 'violations': viol, 'stats': stats,
@@ -382,6 +393,8 @@ class C05Base:
                'nontrivial_digests': sorted(nontrivial),
                'nontrivial_runs': runs, 'samples': samples,
                'trace_digest': digest(traces), 'sim_seconds': 0, 'extra': {}}
+        if viol:
+            res['engine_state'] = engine_state
         if task.get('want_trace'):
             res['trace'] = traces
         return res
